@@ -264,11 +264,11 @@ BLK_STUBBED = ['Timestamp', 'ResponseProcessingData', 'QueryResponseExtended', '
 BLK_REDIRECT = tuple(['_ZN4CDNS%s5writeERNS_11CdnsEncoderE=stubw_%s@cdns' % (_mangled(t), t) for t in BLK_STUBBED] +
                      ['_ZN4CDNS%s4readERNS_11CdnsDecoderE=stubr_%s@cdns' % (_mangled(t), t) for t in BLK_STUBBED] +
                      ['_ZN4CDNS9Timestamp15get_time_offsetERKS0_m=stub_get_time_offset@cdns'])
-BLK_W = ['classtype', 'question', 'rr', 'qrsig', 'mmd', 'rpd', 'qre', 'blockpreamble', 'blockstatistics', 'aec', 'storagehints', 'storageparameters',
+BLK_W = ['filepreamble', 'classtype', 'question', 'rr', 'qrsig', 'mmd', 'rpd', 'qre', 'blockpreamble', 'blockstatistics', 'aec', 'storagehints', 'storageparameters',
          'collectionparameters', 'blockparameters', 'queryresponse', 'malformedmessage', 'timestamp', 'stringitem', 'indexlist']
-BLK_R = ['classtype', 'question', 'rr', 'qrsig', 'mmd', 'rpd', 'qre', 'blockpreamble', 'blockstatistics', 'aec', 'storagehints', 'storageparameters',
+BLK_R = ['filepreamble', 'classtype', 'question', 'rr', 'qrsig', 'mmd', 'rpd', 'qre', 'blockpreamble', 'blockstatistics', 'aec', 'storagehints', 'storageparameters',
          'collectionparameters', 'blockparameters', 'queryresponse', 'malformedmessage', 'timestamp', 'indexlist']
-BLK_PREAMBLE = {'storagehints', 'storageparameters', 'collectionparameters', 'blockparameters'}
+BLK_PREAMBLE = {'filepreamble', 'storagehints', 'storageparameters', 'collectionparameters', 'blockparameters'}
 BLK_FUNCS = ['<X>::write / <X>::read for X in ClassType, Question, RR, QueryResponseSignature, MalformedMessageData, ResponseProcessingData, QueryResponseExtended, BlockPreamble, '
              'BlockStatistics, AddressEventCount, StorageHints, StorageParameters, CollectionParameters, BlockParameters, QueryResponse, MalformedMessage, Timestamp, StringItem, IndexListItem',
              'CdnsDecoder::read_array (cdns_decoder.h)']
@@ -283,14 +283,14 @@ def blk_obl(kind, name, tiers=('quick', 'thorough'), maxm=3, timeout=900):
     d = ['BLK_MAXM=%d' % maxm]
     us = {r'4readERNS_11CdnsDecoderE|10read_arrayE': maxm + 2} if kind == 'r' else ()
     return Obl('%s_%s%s' % (kind, name, '' if kind == 'w' else '_m%d' % maxm), 'blk.cpp', 'noctor:h_%s_%s' % (kind, name), unwind=24, defines=d, tiers=tiers, timeout=timeout,
-               redirect=BLK_REDIRECT, opt='-O1 -fno-inline', mem_gb=16, unwindset=us, extra=('--no-array-field-sensitivity',),
+               redirect=BLK_REDIRECT, opt='-O1 -fno-inline', mem_gb=(30 if timeout > 2000 else 16), unwindset=us,
                desc=('write(): one well-formed item, returned size == bytes produced, item == RFC 8618 encoding (all presence subsets, full-width integers)' if kind == 'w' else
                      'read(): reference encoding with members in any order, definite/indefinite, <= 2 unknown members, symbolic cut point: exact value back / CdnsDecoderEnd'),
                bounds={'members per map (reader)': '<= %d' % maxm, 'strings': '<= 3 bytes', 'lists': '0..2 entries', 'integers': 'full declared width'}, functions=BLK_FUNCS)
 
 
-BLK_MIN_M = {'storagehints': 4, 'storageparameters': 6, 'aec': 4}      # structures with more mandatory members than the default bound
-BLK_BIG = {'qrsig', 'queryresponse', 'collectionparameters', 'blockstatistics'}    # many cases per loop iteration: smaller member bound in the quick tier
+BLK_MIN_M = {'storagehints': 4, 'storageparameters': 6, 'aec': 4, 'filepreamble': 4}      # structures with more mandatory members than the default bound
+BLK_BIG = {'qrsig', 'queryresponse', 'blockstatistics'}    # many cases per loop iteration: smaller member bound in the quick tier
 
 
 def blk_set(kinds, names):
@@ -300,8 +300,8 @@ def blk_set(kinds, names):
             if k == 'w' and n in BLK_W:
                 out.append(blk_obl('w', n))
             if k == 'r' and n in BLK_R:
-                if n == 'storageparameters':
-                    out.append(blk_obl('r', n, tiers=('thorough',), maxm=6, timeout=5400))
+                if n in ('storageparameters', 'collectionparameters', 'filepreamble'):
+                    out.append(blk_obl('r', n, tiers=('thorough',), maxm={'storageparameters': 6, 'filepreamble': 4}.get(n, 3), timeout=5400))
                 elif n in BLK_BIG:
                     out.append(blk_obl('r', n, tiers=('quick',), maxm=2, timeout=900))
                     out.append(blk_obl('r', n, tiers=('thorough',), maxm=4, timeout=5400))
